@@ -187,6 +187,10 @@ func c07Scens(tier string) []msScen {
 		return []string{"PLA", "BR", "BRA", "PH"}
 	}
 	plainKinds := func(warm int) []string { return []string{"IDX", "PL"} }
+	// the audio track listed before the video track: the first stream is then a rendition, not the leading stream
+	cfgLLAudioFirst := muxCfg{Variant: "ll", Tracks: []trackSpec{{Kind: "aac44", Name: "eng", Lang: "en"}, {Kind: "h264"}}, SegCount: 7, SegMinMS: 1000, PartMS: 500}
+	cfgFMP4AudioFirstDisk := muxCfg{Variant: "fmp4", Tracks: []trackSpec{{Kind: "aac44"}, {Kind: "h264"}}, SegCount: 3, SegMinMS: 1000, Disk: true}
+	audioFirstKinds := func(warm int) []string { return []string{"PL0", "PL"} }
 	bases := []base{
 		{cfgLL, []int{0, 2, 6, 7, 37}, llKinds},
 		{cfgLLDisk, []int{0, 6, 37}, llKinds},
@@ -195,6 +199,8 @@ func c07Scens(tier string) []msScen {
 		{cfgFMP4Disk, []int{2, 10, 18}, plainKinds},
 		{cfgTS, []int{0, 2, 5}, plainKinds},
 		{cfgTSDisk, []int{0, 2, 10, 22}, plainKinds},
+		{cfgLLAudioFirst, []int{0, 6}, audioFirstKinds},
+		{cfgFMP4AudioFirstDisk, []int{2, 10}, audioFirstKinds},
 	}
 	for _, b := range bases {
 		for _, warm := range b.warms {
@@ -258,7 +264,7 @@ func c07Scens(tier string) []msScen {
 }
 
 // (the part and the segment are asked for twice: a request that fails must not leave anything locked for the next one)
-var c07Epilogue = []string{"IDX", "PL", "BR", "PH", "SEG", "PART", "INIT", "UNK", "PART", "SEG"}
+var c07Epilogue = []string{"IDX", "PL", "PL0", "BR", "PH", "SEG", "PART", "INIT", "UNK", "PART", "SEG"}
 
 func c07Check(st *msState, s *vsched.Sched, tr *vsched.Trace) (string, []vsched.Viol) {
 	var viols []vsched.Viol
